@@ -25,10 +25,10 @@ def txIn : Codec TxIn := seq hash32 (seq u32le (seq script u32le))
 def txOut : Codec TxOut := seq u64le script
 
 /-- one witness stack: count ≤ maxWitnessItemsPerInput, `make([][]byte, count)` -/
-def witness : Codec Witness := listOf maxWitnessItemsPerInput 24 script
+def witness : Codec Witness := listOf maxWitnessItemsPerInput eszWitnessItem script
 
-def txIns : Codec (List TxIn) := listOf maxTxInPerMessage 104 txIn
-def txOuts : Codec (List TxOut) := listOf maxTxOutPerMessage 40 txOut
+def txIns : Codec (List TxIn) := listOf maxTxInPerMessage eszTxIn txIn
+def txOuts : Codec (List TxOut) := listOf maxTxOutPerMessage eszTxOut txOut
 
 /-- inputs, outputs, lock time; no witness data (every stack empty) -/
 def txBodyBase : Codec TxBody :=
@@ -62,7 +62,7 @@ def tx (e : TxEnc) : Codec Tx :=
     (fun t => totalScript t.2)
 
 /-- msgblock.go -/
-def block (e : TxEnc) : Codec Block := seq blockHeader (listOf maxTxPerBlock 72 (tx e))
+def block (e : TxEnc) : Codec Block := seq blockHeader (listOf maxTxPerBlock eszTx (tx e))
 
 /-- `TxHash`: double SHA-256 of the serialization without witness data -/
 def txid (t : Tx) : Bytes :=
@@ -79,16 +79,16 @@ def blockHash (h : BlockHeader) : Bytes := BV.Sha256.hash2List (blockHeader.enc 
 
 def invVect : Codec InvVect := seq u32le hash32
 /-- msginv.go / msggetdata.go / msgnotfound.go -/
-def invList : Codec (List InvVect) := listOf MaxInvPerMsg 44 invVect
+def invList : Codec (List InvVect) := listOf MaxInvPerMsg eszInvVect invVect
 
 /-- msgheaders.go: each header is followed by a transaction count that must be zero -/
 def headerEntry : Codec BlockHeader :=
   imap (seq blockHeader (magic [0x00])) (fun p => p.1) (fun h => (h, ()))
-def headers : Codec (List BlockHeader) := listOf MaxBlockHeadersPerMsg 112 headerEntry
+def headers : Codec (List BlockHeader) := listOf MaxBlockHeadersPerMsg eszHeader headerEntry
 
 /-- msggetblocks.go / msggetheaders.go: protocol version, locator hashes, stop hash -/
 def getBlocks : Codec (Nat × List Bytes × Bytes) :=
-  seq u32le (seq (listOf MaxBlockLocatorsPerMsg 40 hash32) hash32)
+  seq u32le (seq (listOf MaxBlockLocatorsPerMsg eszHash hash32) hash32)
 
 /-! ### addresses -/
 
@@ -101,7 +101,7 @@ def netAddr (pver : Nat) : Codec NetAddr :=
 
 /-- msgaddr.go; one address at most before MultipleAddressVersion (encoder and, since the fix, decoder) -/
 def addr (pver : Nat) : Codec (List NetAddr) :=
-  listOf (if pver < MultipleAddressVersion then 1 else MaxAddrPerMsg) 104 (netAddr pver)
+  listOf (if pver < MultipleAddressVersion then 1 else MaxAddrPerMsg) eszNetAddr (netAddr pver)
 
 /-- address length demanded for a network id that btcd keeps (ipv4, ipv6, torv2, torv3) -/
 def addrV2Len (id : Nat) : Nat :=
@@ -122,7 +122,7 @@ def netAddrV2 : Codec NetAddrV2 :=
   seq u32le (guard (seq varint (seq u8 (seq (varBytes maxAddrV2Size) u16be))) addrV2Kept)
 
 /-- msgaddrv2.go restricted to kept entries -/
-def addrV2 : Codec (List NetAddrV2) := listOf MaxV2AddrPerMsg 104 netAddrV2
+def addrV2 : Codec (List NetAddrV2) := listOf MaxV2AddrPerMsg eszNetAddrV2 netAddrV2
 
 /-! ### version -/
 
@@ -184,16 +184,16 @@ def emptyFrom (pver gate : Nat) : Codec Unit := if pver ≥ gate then emptyMsg e
 
 /-- msgmerkleblock.go: header, transaction count, hashes, flag bytes -/
 def merkleBlockBody : Codec (BlockHeader × Nat × List Bytes × Bytes) :=
-  seq blockHeader (seq u32le (seq (listOf maxTxPerBlock 40 hash32) (varBytes maxFlagsPerMerkleBlock)))
+  seq blockHeader (seq u32le (seq (listOf maxTxPerBlock eszHash hash32) (varBytes maxFlagsPerMerkleBlock)))
 def merkleBlock (pver : Nat) := if pver ≥ BIP0037Version then merkleBlockBody else never merkleBlockBody
 
 /-- msgcfilter.go: filter type, block hash, data -/
 def cfilter : Codec (Nat × Bytes × Bytes) := seq u8 (seq hash32 (varBytes MaxCFilterDataSize))
 /-- msgcfheaders.go: filter type, stop hash, previous filter header, filter hashes -/
 def cfheaders : Codec (Nat × Bytes × Bytes × List Bytes) :=
-  seq u8 (seq hash32 (seq hash32 (listOf MaxCFHeadersPerMsg 40 hash32)))
+  seq u8 (seq hash32 (seq hash32 (listOf MaxCFHeadersPerMsg eszHash hash32)))
 /-- msgcfcheckpt.go: filter type, stop hash, filter headers -/
-def cfcheckpt : Codec (Nat × Bytes × List Bytes) := seq u8 (seq hash32 (listOf maxCFHeadersLen 40 hash32))
+def cfcheckpt : Codec (Nat × Bytes × List Bytes) := seq u8 (seq hash32 (listOf maxCFHeadersLen eszHash hash32))
 /-- msggetcfilters.go / msggetcfheaders.go: filter type, start height, stop hash -/
 def getcfilters : Codec (Nat × Nat × Bytes) := seq u8 (seq u32le hash32)
 /-- msggetcfcheckpt.go: filter type, stop hash -/
